@@ -41,9 +41,9 @@ Proof. repeat split; vm_compute; reflexivity. Qed.
 
 (* ---------- minProperties / maxProperties ---------- *)
 (* the generated Validate counts the members of the value marshalled back from the decoded struct, the reference counts
-   the members of the document.  On documents whose members are exactly the declared properties that marshalling keeps
-   ([plain]: nothing undeclared, no optional member holding a zero value or an empty map, no absent array or required
-   member) the two verdicts are the same *)
+   the members of the document.  On documents whose declared members are exactly those that marshalling keeps
+   ([plain]: no optional member holding a zero value or an empty map, no absent array or required member; undeclared
+   members are kept by the generated type and count on both sides) the two verdicts are the same *)
 Theorem C02_property_counts_agree : forall ps mn mx l,
   NoDup (map pname ps) -> NoDup (map fst l) -> plain ps l = true ->
   gen_counts ps mn mx (JObj l) = ref_counts mn mx (JObj l).
